@@ -11,6 +11,8 @@ META = {
     'level': 'other',
     'configs': {'quick': ['default'], 'thorough': ['default', 'norayon', 'default_nodebug']},
     'rules': {
+        'R7': 'the float filter leaves every undecided vertex to the exact predicate (C01.R4): clip(v) is 0 on the WHOLE window |n.v - d| < errb (both sides of the plane) and the sign of n.v - d '
+              'outside it; a one-sided or shifted window lets rounding noise decide some ties, and different cells then resolve the same tie differently',
         'R6': 'degenerate point sets are cut by every candidate (C01.R1): a single generator, a collinear or coplanar set in a periodic box is bounded by images of its own '
               'generator; the builder may remove exactly the first stream item (the generator itself, unshifted) and must clip with, or terminate on, every other item',
         'R1': 'integer-grid domain: for every (dimensionality x periodic) configuration and every position the clip routine can pass to iloc — the generator L, a neighbour g + shift, '
@@ -39,7 +41,7 @@ def run(ctx):
     for cfg in ctx.configs_used:
         F = ctx.facts(cfg)
         sfx = '' if cfg == 'default' else '@' + cfg
-        for fn in (r1, r2, r3, r4, r5, r6):
+        for fn in (r1, r2, r3, r4, r5, r6, r7):
             rule = 'C05.' + fn.__name__.upper()
             ctx.guarded(rule, 'evaluate' + sfx, lambda: fn(ctx, F, rule, sfx))
 
@@ -363,3 +365,8 @@ def r4(ctx, F, rule, sfx):
 def r6(ctx, F, rule, sfx):
     from . import c01
     c01.r1(ctx, F, rule, sfx)
+
+
+def r7(ctx, F, rule, sfx):
+    from . import c01
+    c01.r4(ctx, F, rule, sfx)
